@@ -46,6 +46,17 @@ func (p propSpec) Deadline(tier int) time.Duration { return p.DeadlineT[tier] }
 const techSX = "symbolic execution of the real code's go/ssa (GoSX) with SMT (z3) deciding every branch and assertion over all values of the symbolic inputs within the stated bounds; counterexamples replayed natively"
 
 var properties = map[string]propSpec{
+	"C03": {
+		Level: "model_checking", Technique: techSX,
+		Bounds:  [2]string{"leaves: 7 outcome gadgets (3 for depth-3 skeletons) with symbolic data; every pair of leaves for one step (and/or/not, double negation, De Morgan); 8 depth-3 skeletons over three leaves", "7 gadgets for the step, 5 for depth-3 skeletons"},
+		Outside: "leaves other than the gadget family; skeletons deeper than 3 (covered by composition of the step)",
+		Assumptions: []string{"frame fact: a sub-expression's outcome depends only on (sub-tree, datum, options) — C13's effect result"},
+	},
+	"C04": {
+		Level: "model_checking", Technique: techSX,
+		Bounds:  [2]string{"4 operator pairs x 44 shapes x 5 placements (direct, nested map, absent map key, absent top-level key, list element) x literal (<= 2 symbolic bytes + fixed spellings); NotPresentDisposition for all 2^64 operator values", "same"},
+		Outside: "shapes outside the 44; regexp verdicts on symbolic subjects are uninterpreted (same pattern+subject => same verdict)",
+	},
 	"C09": {
 		Level: "model_checking", Technique: techSX,
 		Bounds:  [2]string{"8 operators x 44 datum shapes (every reflect.Kind incl. Invalid, nil/odd elements in containers) x literal (every string <= 2 bytes + 5 fixed spellings); selector direct, through quantifier alias, map value binding, under not/or; datum root", "same"},
